@@ -56,19 +56,37 @@
         BADKEY and BADSIG the record is unsigned (MAC size 0), for BADTIME it is signed in response
         mode and carries the server time as other data.
 
+   (g) **on the independent decoding of the response** (`Proofs/ServerSignedDecode`: the final writer of
+        these responses is reached from `Writer::new` by public calls, so C12's `finish_decodes_content`
+        applies): `C10_decoded_authenticated_nodata`, `C10_decoded_error` — every decoding has empty
+        answer / authority sections, and the additional section is OPT (iff reached) then, last, a
+        record of TYPE 250, CLASS ANY, TTL 0, owner = key name up to case, RDATA = `tsigRdata` of the
+        decision table's prepared RR octet for octet (algorithm, time signed, fudge 300, MAC, original
+        ID, error, other data — the server time iff BADTIME), with the MAC of (f).
+
   `C10_full` (below) is the end-to-end statement "the executable C10 audit finds nothing wrong with
-  the response the model produces, for every configuration, request and clock".  Proved: (a)–(f).
-  Not proved (gap of `C10_partial`): `C10_full` itself, i.e. that the *executable audit* — which
-  decodes the response with an independent decoder and re-derives plain / signed answers — returns
-  the empty list; (f) gives the octets the audit would look at, except that the TSIG record's owner
-  is given as `NameShape` (the key name literally, or a literal prefix plus a compression pointer):
-  that a compressed owner decodes to the key name is the writer's compression theorem (C12/C13).
-  When the reply's TSIG does not fit (UDP, 512 octets) the response is TC / NOERROR without TSIG: (e).
+  the response the model produces, for every configuration, request and clock".  Proved: (a)–(g).
+  Not proved (gap of `C10_partial`), precisely:
+  (1) `C10_full` itself: the walk through the *executable audit* (`Spec.ServerTsig.audit`: it re-derives
+      the expected outcome with its own key lookup / HMAC / time window and compares field by field,
+      and compares with the response to the request stripped of its TSIG RR) is not done; (g) proves,
+      in decoded form, the facts that audit checks for responses without answer data;
+  (2) (closed) for authenticated requests that a loaded zone *answers*:
+      `C10_decoded_authenticated_answer` — in every decoding the TSIG record is the last element of
+      the additional section, with the key name as owner (up to case), `tsigRdata` of the prepared RR
+      as RDATA and the MAC of (f); it rests on `ServerContent.signed_answer_final` (the final writer of
+      the answering phase is `Good`: the induction over `handle_non_axfr_query` that ties the ghost
+      log to the writer's content layout);
+  (3) when the reply's TSIG does not fit (UDP): the response is TC / NOERROR without TSIG — (e), state
+      level only.
 -/
 import QV.Properties.C11
 import QV.Proofs.ServerTsig
 import QV.Spec.ServerTsig
 import QV.Proofs.ServerSigned
+import QV.Proofs.ServerSignedDecode
+import QV.Proofs.ServerSignedOwner
+import QV.Proofs.ServerAnswerDecode
 
 namespace QV.C10
 open QV QV.Server QV.Writer QV.Tsig QV.ServerTsig
@@ -475,6 +493,156 @@ theorem C10_unsigned_mac_empty (an : WName) (rl : Nat) (rr : TsigRr) (pre : List
 
 theorem C10_badtime_mac_signed (a : Writer.Alg) (m k : List UInt8) (rl : Nat) (rr : TsigRr) (pre : List UInt8) :
     finishMac macFn ⟨.response a m k, rl, rr⟩ pre = some (macFn ⟨.response a m k, rl, rr⟩ pre) := rfl
+
+/-! ## (g) on the independent decoding of the response -/
+
+open QV.ServerScan in
+/-- **an authenticated request with a no-data verdict, decoded.**  Every decoding of the response
+    under the independent decoder has empty answer and authority sections, and its additional
+    section is the OPT record (iff the scan reached one) followed by — last — a record of TYPE 250,
+    CLASS ANY, TTL 0 whose owner is the key name up to ASCII case and whose RDATA is, octet for octet,
+    `algorithm ‖ time signed (= now) ‖ fudge 300 ‖ MAC length ‖ MAC ‖ original ID ‖ error 0 ‖ other length 0`
+    (`tsigRdata` of the prepared RR `prepOf kn t now 0`), the MAC being `macFn` of exactly the octets
+    before the record — for a lower-case key name the HMAC of the RFC 8945 §4.3 response digest
+    input (`C10_authenticated_nodata_octets`). -/
+theorem C10_decoded_authenticated_nodata (cfg : Cfg) (tr : Transport) (now bufLen : Nat) (req : Bytes)
+    (hbuf : minBuf tr cfg.payload ≤ bufLen) (hpay : 512 ≤ cfg.payload) (hp16 : cfg.payload ≤ 65535)
+    (hreq : req.size ≤ Rdata.USIZE_MAX)
+    (hr : (Spec.Server.specScanWith (catKind cfg) cfg.payload req).respond = true)
+    (hv : (Spec.Server.specScanWith (catKind cfg) cfg.payload req).verdict = .tsigReached) :
+    ∃ (t : ReadTsigRr) (mw : Bytes) (r' : Reader.Reader), r'.octets = req ∧ r'.cursor ≤ req.size ∧
+      ∀ r'' S, tsigAfter cfg now t mw r' (preTsigState cfg tr bufLen req) = (.ok (some r''), S) →
+      ∀ v, (v = Spec.Server.Verdict.formErr ∨ v = .notImp ∨ v = .refused ∨ v = .servFailZone) →
+        endVerdict (catKind cfg) req.size (Spec.Server.specScanWith (catKind cfg) cfg.payload req).question
+          r'.cursor ((req.getD 2 0).toNat / 8 % 16) = v →
+      ∀ b, handleMessage cfg tr now bufLen req = .ok (some b) →
+        ∃ nowT alg key kn, TimeSigned.tryFromUnix now = some nowT ∧
+          Algorithm.fromName t.algorithm = some alg ∧ findKey cfg.keys t.keyName alg = some key ∧
+          WName.parse t.keyName = some (kn, []) ∧ verifyRequest realHmac t mw.toList alg key.secret nowT = .ok () ∧
+          ∀ d, Spec.specDecodeMsg b = some d →
+            d.an = [] ∧ d.ns = [] ∧
+            ∃ rest o, d.ar = rest ++ [o] ∧
+              rest.length = (if (Spec.Server.specScanWith (catKind cfg) cfg.payload req).edns then 1 else 0) ∧
+              o.ty = 250 ∧ o.cls = 255 ∧ o.rawTtl = 0 ∧
+              o.owner.map lowerU8 = kn.wire.map lowerU8 ∧
+              o.rdata = tsigRdata (prepOf kn t nowT 0) (algName (toWriterAlg alg))
+                (macFn (respTsig alg key kn t nowT)
+                  (signedPrefix req cfg.payload (Spec.Server.specScanWith (catKind cfg) cfg.payload req)
+                    (Spec.Server.verdictRcode v).1)) := by
+  obtain ⟨t, mw, r', h1, h2, h3⟩ := signed_nodata_final cfg tr now bufLen req hbuf hpay hp16 hreq hr hv
+  refine ⟨t, mw, r', h1, h2, fun r'' S hT v hvv hev b hb => ?_⟩
+  obtain ⟨nowT, alg, key, kn, F, mac, e1, e2, e3, e4, e5, hf, hG, hts, he, hmac⟩ := h3 r'' S hT v hvv hev b hb
+  refine ⟨nowT, alg, key, kn, e1, e2, e3, e4, e5, fun d hd => ?_⟩
+  obtain ⟨hq1, hq2, hq3⟩ := qBody_norecs (Spec.Server.specScanWith (catKind cfg) cfg.payload req).question
+  obtain ⟨_, _, c3, c4⟩ := opt_of_good macFn F _ hG (by rw [hq3]; simp) b mac hf d hd
+  rw [hq1] at c3
+  rw [hq2] at c4
+  obtain ⟨rest, o, g1, g2, g3, g4, g5, g6, _, g8⟩ := tsig_of_good macFn F _ hG _ hts b mac hf d hd
+  refine ⟨List.length_eq_zero_iff.mp c3, List.length_eq_zero_iff.mp c4, rest, o, g1, ?_, g2, g3, g4, g5, ?_⟩
+  · rw [g8, hq3, he]; cases (Spec.Server.specScanWith (catKind cfg) cfg.payload req).edns <;> rfl
+  · rw [g6, hmac]; rfl
+
+open QV.ServerScan in
+/-- **a request that is not authenticated, decoded** (reply TSIG fits): empty answer and authority
+    sections; the additional section is the OPT (iff reached) and then, last, the TSIG record with the
+    key name as owner (up to case) and the RDATA of the decision table's prepared RR — error BADKEY /
+    BADSIG / BADTIME, MAC empty for the unsigned replies, `macFn` of the octets before the record for
+    BADTIME, the server time as other data iff BADTIME (`tsigRdata`). -/
+theorem C10_decoded_error (cfg : Cfg) (tr : Transport) (now bufLen : Nat) (req : Bytes)
+    (hbuf : minBuf tr cfg.payload ≤ bufLen) (hpay : 512 ≤ cfg.payload) (hp16 : cfg.payload ≤ 65535)
+    (hreq : req.size ≤ Rdata.USIZE_MAX)
+    (hr : (Spec.Server.specScanWith (catKind cfg) cfg.payload req).respond = true)
+    (hv : (Spec.Server.specScanWith (catKind cfg) cfg.payload req).verdict = .tsigReached) :
+    ∃ (t : ReadTsigRr) (mw : Bytes) (r' : Reader.Reader), r'.octets = req ∧ r'.cursor ≤ req.size ∧
+      ∀ nowT kn an rc mode rr, TimeSigned.tryFromUnix now = some nowT →
+        WName.parse t.keyName = some (kn, []) → WName.parse t.algorithm = some (an, []) →
+        tsigStopReply realHmac cfg.keys nowT t mw.toList kn an = some (rc, mode, rr) →
+        TsigFits (preTsigState cfg tr bufLen req) mode rr →
+        ∀ b, handleMessage cfg tr now bufLen req = .ok (some b) →
+          ∀ d, Spec.specDecodeMsg b = some d →
+            d.an = [] ∧ d.ns = [] ∧
+            ∃ rest o, d.ar = rest ++ [o] ∧
+              rest.length = (if (Spec.Server.specScanWith (catKind cfg) cfg.payload req).edns then 1 else 0) ∧
+              o.ty = 250 ∧ o.cls = 255 ∧ o.rawTtl = 0 ∧
+              o.owner.map lowerU8 = rr.keyName.wire.map lowerU8 ∧
+              o.rdata = tsigRdata rr (tsigAlgName mode)
+                ((finishMac macFn ⟨mode, reservedLen mode rr, rr⟩
+                  (signedPrefix req cfg.payload (Spec.Server.specScanWith (catKind cfg) cfg.payload req) rc)).getD []) := by
+  obtain ⟨t, mw, r', h1, h2, h3⟩ := signed_error_final cfg tr now bufLen req hbuf hpay hp16 hreq hr hv
+  refine ⟨t, mw, r', h1, h2, fun nowT kn an rc mode rr hnow hkn han hrep hfit b hb d hd => ?_⟩
+  obtain ⟨F, mac, hf, hG, hts, he, hmac⟩ := h3 nowT kn an rc mode rr hnow hkn han hrep hfit b hb
+  obtain ⟨hq1, hq2, hq3⟩ := qBody_norecs (Spec.Server.specScanWith (catKind cfg) cfg.payload req).question
+  obtain ⟨_, _, c3, c4⟩ := opt_of_good macFn F _ hG (by rw [hq3]; simp) b mac hf d hd
+  rw [hq1] at c3
+  rw [hq2] at c4
+  obtain ⟨rest, o, g1, g2, g3, g4, g5, g6, _, g8⟩ := tsig_of_good macFn F _ hG _ hts b mac hf d hd
+  refine ⟨List.length_eq_zero_iff.mp c3, List.length_eq_zero_iff.mp c4, rest, o, g1, ?_, g2, g3, g4, g5, ?_⟩
+  · rw [g8, hq3, he]; cases (Spec.Server.specScanWith (catKind cfg) cfg.payload req).edns <;> rfl
+  · rw [g6, hmac]
+
+open QV.ServerScan in
+/-- **an authenticated request that a loaded zone answers, decoded**: in every independent decoding
+    of the response the TSIG record is the *last element of the additional section* — TYPE 250, CLASS
+    ANY, TTL 0, owner = the key name up to ASCII case, RDATA octet for octet `tsigRdata` of the
+    prepared RR `prepOf kn t now 0` (algorithm, time signed = now, fudge 300, MAC, original ID, error
+    0, no other data) — and the MAC is `macFn` of exactly the octets `pre` before the record
+    (`b = pre ++ TSIG record`); before it come the address records of the answering phase and the OPT
+    (iff the scan reached one).  The final writer is `Good` with the question and the records of the
+    successful calls of the answering phase as its body (`ServerContent.signed_answer_final`: the
+    induction over `handle_non_axfr_query` that ties the ghost log to the writer's content layout). -/
+theorem C10_decoded_authenticated_answer (cfg : Cfg) (hcfg : ServerSafety.CfgWF cfg) (tr : Transport)
+    (now bufLen : Nat) (req : Bytes)
+    (hbuf : minBuf tr cfg.payload ≤ bufLen) (hpay : 512 ≤ cfg.payload) (hp16 : cfg.payload ≤ 65535)
+    (hreq : req.size ≤ Rdata.USIZE_MAX)
+    (hr : (Spec.Server.specScanWith (catKind cfg) cfg.payload req).respond = true)
+    (hv : (Spec.Server.specScanWith (catKind cfg) cfg.payload req).verdict = .tsigReached) :
+    ∃ (t : ReadTsigRr) (mw : Bytes) (r' : Reader.Reader), r'.octets = req ∧ r'.cursor ≤ req.size ∧
+      ∀ r'' S, tsigAfter cfg now t mw r' (preTsigState cfg tr bufLen req) = (.ok (some r''), S) →
+        endVerdict (catKind cfg) req.size (Spec.Server.specScanWith (catKind cfg) cfg.payload req).question
+          r'.cursor ((req.getD 2 0).toNat / 8 % 16) = .answer →
+      ∀ b, handleMessage cfg tr now bufLen req = .ok (some b) →
+        ∃ nowT alg key kn, TimeSigned.tryFromUnix now = some nowT ∧
+          Algorithm.fromName t.algorithm = some alg ∧ findKey cfg.keys t.keyName alg = some key ∧
+          WName.parse t.keyName = some (kn, []) ∧ verifyRequest realHmac t mw.toList alg key.secret nowT = .ok () ∧
+          ∃ pre oe, b.toList = pre ++ tsigRecordOctets oe (respTsig alg key kn t nowT)
+              (some (macFn (respTsig alg key kn t nowT) pre)) ∧
+            ∀ d, Spec.specDecodeMsg b = some d →
+              ∃ rest o, d.ar = rest ++ [o] ∧ o.ty = 250 ∧ o.cls = 255 ∧ o.rawTtl = 0 ∧
+                o.owner.map lowerU8 = kn.wire.map lowerU8 ∧
+                o.rdata = tsigRdata (prepOf kn t nowT 0) (algName (toWriterAlg alg))
+                  (macFn (respTsig alg key kn t nowT) pre) := by
+  obtain ⟨t, mw, r', h1, h2, h3⟩ := ServerContent.signed_answer_final cfg hcfg tr now bufLen req hbuf hpay hp16 hreq hr hv
+  refine ⟨t, mw, r', h1, h2, fun r'' S hT hev b hb => ?_⟩
+  obtain ⟨nowT, alg, key, kn, F, mac, bd, e1, e2, e3, e4, e5, hf, hG, _, _, hts, _⟩ := h3 r'' S hT hev b hb
+  refine ⟨nowT, alg, key, kn, e1, e2, e3, e4, e5, ?_⟩
+  obtain ⟨_, hmac, oe, sT, _, _, _, _, hbl⟩ := finish_octets_tsig macFn F hG.1.inv.hdr _ hts b mac hf
+  have hmac' : mac = some (macFn (respTsig alg key kn t nowT) (finishPrefix F ++ optEnc F.edns)) := by
+    rw [hmac]; rfl
+  rw [hmac'] at hbl
+  refine ⟨finishPrefix F ++ optEnc F.edns, oe, hbl, fun d hd => ?_⟩
+  obtain ⟨rest, o, g1, g2, g3, g4, g5, g6, _, _⟩ := tsig_of_good macFn F _ hG _ hts b mac hf d hd
+  refine ⟨rest, o, g1, g2, g3, g4, g5, ?_⟩
+  rw [g6, hmac']; rfl
+
+open QV.ServerScan in
+/-- **every signed response — answers from loaded zones included.**  With `w1` the writer that
+    `handle_message` hands to `finish` (`answerState`; srvsafe's `prog_safe` shows it satisfies the
+    writer's invariant) and `ts` the TSIG it holds: the response is `pre ++ TSIG record`, the record
+    last, its MAC `macFn ts pre` (none when unsigned), and at position `|pre|` the independent name
+    decoder reads on the response the key name, up to ASCII case (C13's `finish_tsig_owner_decodes`),
+    whether it was written literally or compressed. -/
+theorem C10_tsig_record_last_owner_decodes (cfg : Cfg) (hcfg : ServerSafety.CfgWF cfg) (tr : Transport)
+    (now bufLen : Nat) (req : Bytes) (hbuf : minBuf tr cfg.payload ≤ bufLen) (hpay : 512 ≤ cfg.payload)
+    (hnow : now < 2^48) (hreq : req.size ≤ Rdata.USIZE_MAX) (b : Bytes)
+    (hb : handleMessage cfg tr now bufLen req = .ok (some b))
+    (ts : Writer.Tsig) (hts : (answerState cfg tr now bufLen req).tsig = some ts) :
+    ∃ pre oe mac w k, mac = finishMac macFn ts pre ∧ b.toList = pre ++ tsigRecordOctets oe ts mac ∧
+      NameShape ts.rr.keyName oe ∧
+      Spec.specDecodeName b pre.length = some (w, ts.rr.keyName.len, k) ∧
+      w.map lowerU8 = ts.rr.keyName.wire.map lowerU8 := by
+  obtain ⟨oe, mac, w, k, h1, h2, h3, h4, h5⟩ :=
+    response_tsig_owner_decodes cfg hcfg tr now bufLen req hbuf hpay hnow hreq b hb ts hts
+  exact ⟨_, oe, mac, w, k, h1, h2, h3, h4, h5⟩
 
 /-! ## non-vacuity: concrete instances of the hypotheses used above -/
 
